@@ -355,3 +355,5 @@ def run(cx, out):
         n_in = len(facts.impls_of('Input'))
         want = {'A': 6, 'B': 5, 'C': 5, 'D': 7, 'E': 6}.get(cfg, 5)
         out.floor('R08.4', 'Input impls [%s]' % cfg, n_in, want)
+    from . import positive
+    positive.check(cx, out, 'C08')
